@@ -183,7 +183,7 @@ def z_near_arc(pc, px, py, eps, M):
 
 def z_off_boundary(px, py, regs, eps, M):
     """p is surely at distance >= eps from every boundary piece of the regions"""
-    from oracles.region import z_seg_off
+    from oracles.region import z_seg_off, zb
 
     cs = []
     for reg in regs:
@@ -193,7 +193,22 @@ def z_off_boundary(px, py, regs, eps, M):
                     cs.append(z_seg_off(px, py, pc[0], pc[1], eps))
                 else:
                     cs.append(z3.Not(z_near_arc(pc, px, py, eps, M)))
+                    # the chord's line is not a boundary, but the strict cap formula and the half-open chord parity are only
+                    # claimed off it (a null set: any discrepancy of regions has interior points off these lines)
+                    cs.append(zb(lams(pc, px, py)[1] != 0))
     return z3.And(cs) if cs else z3.BoolVal(True)
+
+
+def z_off_chords(px, py, regs):
+    """p is on no chord line of an arc of the regions (see z_off_boundary)"""
+    from oracles.region import zb
+
+    cs = [zb(lams(pc, px, py)[1] != 0) for reg in regs for node in nodes_of(reg) for pc in node[1] if len(pc) == 3]
+    return z3.And(cs) if cs else z3.BoolVal(True)
+
+
+def x_off_chords(p, regs):
+    return all(lams(pc, F(p[0]), F(p[1]))[1] != 0 for reg in regs for node in nodes_of(reg) for pc in node[1] if len(pc) == 3)
 
 
 def extent(regs):
@@ -252,6 +267,6 @@ def x_off_boundary(p, regs, eps, M):
                 if len(pc) == 2:
                     if x_dist2_seg((F(p[0]), F(p[1])), pc[0], pc[1]) < 2 * eps * eps:
                         return False
-                elif x_near_arc(pc, p, eps, M):
+                elif x_near_arc(pc, p, eps, M) or lams(pc, F(p[0]), F(p[1]))[1] == 0:
                     return False
     return True
